@@ -64,7 +64,8 @@ Down(p) == up[p] /\ up' = [up EXCEPT ![p] = FALSE] /\ inr' = [inr EXCEPT ![p] = 
 (* ONE UPDATE message of p: withdrawn routes W and announced routes A (sets of keys (x,id)) which
    all carry the attributes of r.  Announce, implicit replace, withdraw, duplicate withdraw,
    withdraw of an identifier never announced and a burst packed into one message are all instances.
-   W and A are disjoint (RFC 4271 4.3: the same prefix SHOULD NOT be in both fields). *)
+   W and A are disjoint (RFC 4271 4.3: the same prefix SHOULD NOT be in both fields; what a speaker
+   does with such a message is a SHOULD and is not modelled). *)
 Msg(p, W, A, r) ==
   /\ up[p]
   /\ W \cap A = {}
